@@ -3,6 +3,7 @@
 //! simulator under test.  See README.md.
 
 pub mod eval;
+pub mod findings;
 pub mod dgen;
 pub mod ir;
 pub mod print;
@@ -10,7 +11,7 @@ pub mod sim;
 pub mod stim;
 
 pub use eval::{RefSim, Val, ty_of};
-pub use dgen::{ExprInfo, shape, KNOWN_FINDING_SHAPES, GenCfg, Generated, constify, gen_design, gen_expr_design, gen_value, gen_width, width_class};
+pub use dgen::{ExprInfo, shape, GenCfg, Generated, constify, gen_design, gen_expr_design, gen_value, gen_width, width_class};
 pub use ir::*;
 pub use print::print_design;
 pub use sim::{Analyzed, PortSpec, Rejected, Sample, StimStep, Stimulus, Trace, config_label, engine_configs, run_trace};
